@@ -56,7 +56,7 @@ def extra(ctx, state):
     state["coverage_extra"] = {
         "distinct_grammars": len(grams),
         "reply_distribution": dict(sorted(dist.items())),
-        "size_caps": "K <= 3: <= 5 non-terminals, <= 3 terminals, rhs <= 4; K = 5 (thorough only, every 4th grammar): "
+        "size_caps": "K <= 3: <= 5 non-terminals, <= 3 terminals, rhs <= 4; K = 6 (thorough only, every 4th grammar): "
                      "<= 4 non-terminals, <= 2 terminals, rhs <= 3",
     }
 
@@ -70,7 +70,7 @@ SPEC = {
     "extra": extra,
     "level": "proof",
     "rule": "15 hand-picked grammars (LL(1..4), non-LL, identical alternatives, nullable prefixes) with K = 0..4 + random productive, "
-            "reachable, left-recursion-free grammars (as in C06) with K = top and one random K <= top (top = 3; 5 for every 4th "
+            "reachable, left-recursion-free grammars (as in C06) with K = top and one random K <= top (top = 3; 6 for every 4th "
             "grammar in the thorough tier); per grammar and K: decidable for every non-terminal, calculate_k, calculate_k_tuples, "
             "calculate_lookahead_dfas (verdict); per non-terminal: explain_conflicts at a random k and at top, the compared "
             "lookahead sets with the verdicts of the real is_disjoint; one undefined non-terminal per grammar; "
